@@ -1,2 +1,380 @@
-(* Proofs/SmtextProofs.v *)
+(* Proofs/SmtextProofs.v — association-list maps, Symmetrical, GoString. *)
+From Coq Require Import Permutation Sorted.
 From Bio Require Import Base.
+From Bio.Model Require Import Smtext.
+From Bio.Spec Require Import SmtextSpec.
+
+(* ---- keys -------------------------------------------------------------------- *)
+Lemma keqb_eq : forall k1 k2, keqb k1 k2 = true <-> k1 = k2.
+Proof.
+  intros [a b] [c d]. unfold keqb; cbn [fst snd].
+  rewrite andb_true_iff, !N.eqb_eq. split.
+  - intros [-> ->]; reflexivity.
+  - intros H; inversion H; auto.
+Qed.
+
+Lemma keqb_refl : forall k, keqb k k = true.
+Proof. intros; apply keqb_eq; reflexivity. Qed.
+
+Lemma keqb_neq : forall k1 k2, k1 <> k2 -> keqb k1 k2 = false.
+Proof.
+  intros k1 k2 H. destruct (keqb k1 k2) eqn:E; auto.
+  apply keqb_eq in E; contradiction.
+Qed.
+
+Lemma key_eq_dec : forall k1 k2 : key, {k1 = k2} + {k1 <> k2}.
+Proof. decide equality; apply N.eq_dec. Qed.
+
+Lemma flip_flip : forall k, flip (flip k) = k.
+Proof. intros [a b]; reflexivity. Qed.
+
+(* ---- lookup / assignment ------------------------------------------------------ *)
+Lemma mlookup_mset_same : forall k x m, mlookup k (mset k x m) = Some x.
+Proof.
+  intros k x m; induction m as [|[k' y] r IH]; cbn [mset mlookup].
+  - rewrite keqb_refl; reflexivity.
+  - destruct (keqb k k') eqn:E; cbn [mlookup].
+    + rewrite keqb_refl; reflexivity.
+    + rewrite E; exact IH.
+Qed.
+
+Lemma mlookup_mset_other : forall k k' x m, k' <> k -> mlookup k' (mset k x m) = mlookup k' m.
+Proof.
+  intros k k' x m H; induction m as [|[k2 y] r IH]; cbn [mset mlookup].
+  - rewrite keqb_neq by assumption; reflexivity.
+  - destruct (keqb k k2) eqn:E; cbn [mlookup].
+    + apply keqb_eq in E; subst k2. rewrite keqb_neq by assumption. reflexivity.
+    + destruct (keqb k' k2); auto.
+Qed.
+
+Lemma in_keys_mset : forall k x m k',
+  In k' (map fst (mset k x m)) <-> k' = k \/ In k' (map fst m).
+Proof.
+  intros k x m k'; induction m as [|[k2 y] r IH]; cbn [mset map fst In].
+  - intuition.
+  - destruct (keqb k k2) eqn:E; cbn [map fst In].
+    + apply keqb_eq in E; subst. intuition.
+    + rewrite IH. intuition.
+Qed.
+
+Lemma mset_unique : forall k x m, keys_unique m -> keys_unique (mset k x m).
+Proof.
+  unfold keys_unique. intros k x m; induction m as [|[k2 y] r IH]; cbn [mset map fst]; intros H.
+  - constructor; [intros [] | constructor].
+  - inversion H; subst. destruct (keqb k k2) eqn:E; cbn [map fst].
+    + apply keqb_eq in E; subst. constructor; auto.
+    + constructor.
+      * rewrite in_keys_mset. intros [->|?]; [rewrite keqb_refl in E; discriminate | contradiction].
+      * apply IH; auto.
+Qed.
+
+Lemma mlookup_in : forall k x m, mlookup k m = Some x -> In (k, x) m.
+Proof.
+  intros k x m; induction m as [|[k2 y] r IH]; cbn [mlookup]; intros H.
+  - discriminate.
+  - destruct (keqb k k2) eqn:E.
+    + apply keqb_eq in E; subst; inversion H; left; reflexivity.
+    + right; auto.
+Qed.
+
+Lemma in_mlookup : forall k x m, keys_unique m -> In (k, x) m -> mlookup k m = Some x.
+Proof.
+  unfold keys_unique. intros k x m; induction m as [|[k2 y] r IH]; intros U H; cbn [mlookup].
+  - destruct H.
+  - cbn [map fst] in U. inversion U; subst. destruct H as [H|H].
+    + inversion H; subst. rewrite keqb_refl; reflexivity.
+    + destruct (keqb k k2) eqn:E.
+      * apply keqb_eq in E; subst. exfalso. apply H2.
+        apply (in_map fst) in H. exact H.
+      * apply IH; auto.
+Qed.
+
+Lemma mlookup_notin : forall k m, ~ In k (map fst m) -> mlookup k m = None.
+Proof.
+  intros k m H. destruct (mlookup k m) eqn:E; auto.
+  apply mlookup_in in E. apply (in_map fst) in E. contradiction.
+Qed.
+
+Lemma unique_same : forall (m : smatrix) k x y,
+  keys_unique m -> In (k, x) m -> In (k, y) m -> x = y.
+Proof.
+  intros m k x y U H1 H2.
+  apply (in_mlookup _ _ _ U) in H1. apply (in_mlookup _ _ _ U) in H2. congruence.
+Qed.
+
+(* ---- a sequence of assignments ------------------------------------------------- *)
+Definition setf (m : smatrix) (e : key * F) : smatrix := mset (fst e) (snd e) m.
+
+Lemma matrix_of_entries_fold : forall es, matrix_of_entries es = fold_left setf es [].
+Proof. reflexivity. Qed.
+
+Lemma fold_unique : forall ps m, keys_unique m -> keys_unique (fold_left setf ps m).
+Proof.
+  induction ps as [|p ps IH]; intros m U; cbn [fold_left]; auto.
+  apply IH. apply mset_unique; exact U.
+Qed.
+
+Lemma lookup_fold_some : forall ps m k y,
+  mlookup k (fold_left setf ps m) = Some y -> In (k, y) ps \/ mlookup k m = Some y.
+Proof.
+  induction ps as [|[k' x'] ps IH]; intros m k y H; cbn [fold_left] in H.
+  - right; exact H.
+  - apply IH in H. destruct H as [H|H].
+    + left; right; exact H.
+    + unfold setf in H; cbn [fst snd] in H.
+      destruct (key_eq_dec k k') as [->|N].
+      * rewrite mlookup_mset_same in H. inversion H; subst. left; left; reflexivity.
+      * rewrite mlookup_mset_other in H by assumption. right; exact H.
+Qed.
+
+Lemma lookup_fold_notin : forall ps m k,
+  ~ In k (map fst ps) -> mlookup k (fold_left setf ps m) = mlookup k m.
+Proof.
+  induction ps as [|[k' x'] ps IH]; intros m k H; cbn [fold_left]; auto.
+  cbn [map fst In] in H. rewrite IH by tauto.
+  unfold setf; cbn [fst snd]. apply mlookup_mset_other. intros ->; tauto.
+Qed.
+
+Lemma lookup_fold_in : forall ps m k,
+  In k (map fst ps) -> exists y, mlookup k (fold_left setf ps m) = Some y /\ In (k, y) ps.
+Proof.
+  induction ps as [|[k' x'] ps IH]; intros m k H; cbn [fold_left].
+  - destruct H.
+  - destruct (in_dec key_eq_dec k (map fst ps)) as [I|N].
+    + destruct (IH (setf m (k', x')) k I) as [y [H1 H2]]. exists y; split; [exact H1 | right; exact H2].
+    + cbn [map fst In] in H. destruct H as [H|H]; [|contradiction]. subst k'.
+      exists x'. split; [|left; reflexivity].
+      rewrite lookup_fold_notin by assumption.
+      unfold setf; cbn [fst snd]. apply mlookup_mset_same.
+Qed.
+
+(* with distinct keys, the matrix built from a list of pairs holds exactly them *)
+Lemma matrix_of_entries_lookup : forall ps, NoDup (map fst ps) ->
+  keys_unique (matrix_of_entries ps) /\
+  forall k x, mlookup k (matrix_of_entries ps) = Some x <-> In (k, x) ps.
+Proof.
+  intros ps U. rewrite matrix_of_entries_fold. split.
+  - apply fold_unique. constructor.
+  - intros k x; split; intros H.
+    + apply lookup_fold_some in H. destruct H as [H|H]; [exact H | discriminate].
+    + assert (I : In k (map fst ps)) by (apply (in_map fst) in H; exact H).
+      destruct (lookup_fold_in ps [] k I) as [y [H1 H2]].
+      rewrite H1. f_equal. exact (unique_same ps k y x U H2 H).
+Qed.
+
+(* ---- Symmetrical ---------------------------------------------------------------- *)
+Definition conflictb (m : smatrix) (e : key * F) : bool :=
+  negb (fst (fst e) =? snd (fst e)) &&
+  match mlookup (flip (fst e)) m with Some v2 => negb (feq v2 (snd e)) | None => false end.
+
+Lemma sym_step_eq : forall m acc e,
+  sym_step m acc e =
+  obind acc (fun res => if conflictb m e then Panic
+                        else Ok (mset (flip (fst e)) (snd e) (mset (fst e) (snd e) res))).
+Proof.
+  intros m acc e. unfold sym_step, conflictb. destruct acc; cbn [obind]; auto.
+  destruct (negb (fst (fst e) =? snd (fst e))); cbn [andb]; auto.
+  destruct (mlookup (flip (fst e)) m); auto.
+Qed.
+
+Definition sym_sets (l : smatrix) : list (key * F) :=
+  flat_map (fun e => [(fst e, snd e); (flip (fst e), snd e)]) l.
+
+Lemma sym_fold_panic : forall m l, fold_left (sym_step m) l Panic = Panic.
+Proof. intros m l; induction l; cbn [fold_left]; auto. Qed.
+
+Lemma sym_fold : forall m l acc,
+  fold_left (sym_step m) l (Ok acc) =
+  if existsb (conflictb m) l then Panic else Ok (fold_left setf (sym_sets l) acc).
+Proof.
+  intros m l; induction l as [|e l IH]; intros acc; cbn [fold_left existsb].
+  - reflexivity.
+  - rewrite sym_step_eq; cbn [obind]. destruct (conflictb m e); cbn [orb].
+    + apply sym_fold_panic.
+    + rewrite IH. reflexivity.
+Qed.
+
+Lemma existsb_false : forall {A} (f : A -> bool) l,
+  existsb f l = false -> forall x, In x l -> f x = false.
+Proof.
+  intros A f l H x I. destruct (f x) eqn:E; auto.
+  assert (existsb f l = true) by (apply existsb_exists; exists x; auto). congruence.
+Qed.
+
+Lemma conflictb_conflict : forall m, keys_unique m ->
+  (existsb (conflictb m) m = true <-> conflict m).
+Proof.
+  intros m U. rewrite existsb_exists. split.
+  - intros [[[a b] v] [I C]]. unfold conflictb, flip in C; cbn [fst snd] in C.
+    apply andb_true_iff in C. destruct C as [C1 C2]. revert C2.
+    destruct (mlookup (b, a) m) as [v2|] eqn:L; [|discriminate]. intros C2.
+    exists a, b, v, v2. repeat split.
+    + intros ->. rewrite N.eqb_refl in C1. discriminate.
+    + apply in_mlookup; assumption.
+    + exact L.
+    + destruct (feq v2 v); [discriminate | reflexivity].
+  - intros [a [b [v [v2 [N [L1 [L2 Fq]]]]]]].
+    exists ((a, b), v). split; [apply mlookup_in; exact L1|].
+    unfold conflictb, flip; cbn [fst snd]. rewrite L2, Fq.
+    apply N.eqb_neq in N. rewrite N. reflexivity.
+Qed.
+
+Lemma in_sym_sets : forall m k y, keys_unique m -> In (k, y) (sym_sets m) ->
+  mlookup k m = Some y \/ mlookup (flip k) m = Some y.
+Proof.
+  intros m k y U H. unfold sym_sets in H. apply in_flat_map in H.
+  destruct H as [[k' v] [I H]]. cbn [fst snd In] in H.
+  destruct H as [H|[H|[]]]; inversion H; subst.
+  - left. apply in_mlookup; assumption.
+  - right. rewrite flip_flip. apply in_mlookup; assumption.
+Qed.
+
+Lemma sym_sets_in : forall m k x, In (k, x) m ->
+  In (k, x) (sym_sets m) /\ In (flip k, x) (sym_sets m).
+Proof.
+  intros m k x I. unfold sym_sets. split; apply in_flat_map; exists (k, x); split; auto;
+    cbn [fst snd In]; auto.
+Qed.
+
+Lemma no_conflict_score : forall m k x y, keys_unique m ->
+  existsb (conflictb m) m = false ->
+  mlookup k m = Some x -> mlookup (flip k) m = Some y ->
+  original_score m (flip k) x y.
+Proof.
+  intros m k x y U NC L1 L2. unfold original_score.
+  destruct (N.eq_dec (fst k) (snd k)) as [E|N].
+  - left. assert (flip k = k) by (destruct k; cbn in *; subst; reflexivity).
+    rewrite H in L2. congruence.
+  - right. split; [|exact L2].
+    pose proof (existsb_false _ _ NC (k, x) (mlookup_in _ _ _ L1)) as C.
+    unfold conflictb in C; cbn [fst snd] in C. rewrite L2 in C.
+    apply N.eqb_neq in N. rewrite N in C. cbn [negb andb] in C.
+    destruct (feq y x); [reflexivity | discriminate].
+Qed.
+
+Lemma symmetrical_exact : forall m, keys_unique m ->
+  (symmetrical m = Panic <-> conflict m)
+  /\ symmetrical m <> Err
+  /\ forall r, symmetrical m = Ok r ->
+       keys_unique r
+       /\ (forall k y, mlookup k r = Some y ->
+             mlookup k m = Some y \/ mlookup (flip k) m = Some y)
+       /\ (forall k x, mlookup k m = Some x ->
+             (exists y, mlookup k r = Some y /\ original_score m (flip k) x y)
+             /\ (exists y, mlookup (flip k) r = Some y /\ original_score m (flip k) x y)).
+Proof.
+  intros m U. unfold symmetrical. rewrite sym_fold.
+  pose proof (conflictb_conflict m U) as CC.
+  destruct (existsb (conflictb m) m) eqn:EX.
+  - split; [|split].
+    + split; intros _; [apply CC; reflexivity | reflexivity].
+    + discriminate.
+    + intros r H; discriminate.
+  - split; [|split].
+    + split; [discriminate|]. intros C. apply CC in C. discriminate.
+    + discriminate.
+    + intros r H. inversion H; subst r; clear H. split; [|split].
+      * apply fold_unique. constructor.
+      * intros k y L. apply lookup_fold_some in L. destruct L as [L|L]; [|discriminate].
+        apply in_sym_sets; assumption.
+      * intros k x L.
+        pose proof (mlookup_in _ _ _ L) as I.
+        destruct (sym_sets_in m k x I) as [I1 I2].
+        assert (V : forall kk y, kk = k \/ kk = flip k -> In (kk, y) (sym_sets m) ->
+                    original_score m (flip k) x y).
+        { intros kk y Hk Hin. apply (in_sym_sets m kk y U) in Hin.
+          destruct Hk as [-> | ->].
+          - destruct Hin as [Hin|Hin].
+            + left. congruence.
+            + apply no_conflict_score; assumption.
+          - rewrite flip_flip in Hin. destruct Hin as [Hin|Hin].
+            + apply no_conflict_score; assumption.
+            + left. congruence. }
+        split.
+        -- destruct (lookup_fold_in (sym_sets m) [] k) as [y [Y1 Y2]].
+           { apply (in_map fst) in I1. exact I1. }
+           exists y; split; [exact Y1 | apply (V k); auto].
+        -- destruct (lookup_fold_in (sym_sets m) [] (flip k)) as [y [Y1 Y2]].
+           { apply (in_map fst) in I2. exact I2. }
+           exists y; split; [exact Y1 | apply (V (flip k)); auto].
+Qed.
+
+(* ---- GoString -------------------------------------------------------------------- *)
+Definition entry_lt (e1 e2 : key * F) : Prop := key_lt (fst e1) (fst e2).
+
+Lemma key_ltb_lt : forall k1 k2, key_ltb k1 k2 = true <-> key_lt k1 k2.
+Proof.
+  intros [a b] [c d]. unfold key_ltb, key_lt; cbn [fst snd].
+  rewrite orb_true_iff, andb_true_iff, !N.ltb_lt, N.eqb_eq. reflexivity.
+Qed.
+
+Lemma key_lt_total : forall k1 k2, key_ltb k1 k2 = false -> k1 <> k2 -> key_lt k2 k1.
+Proof.
+  intros [a b] [c d] H N. unfold key_ltb in H; cbn [fst snd] in H.
+  apply orb_false_iff in H. destruct H as [H1 H2]. apply N.ltb_ge in H1.
+  unfold key_lt; cbn [fst snd].
+  destruct (N.eq_dec a c) as [->|Nac].
+  - rewrite N.eqb_refl in H2. cbn [andb] in H2. apply N.ltb_ge in H2.
+    right. split; auto. assert (b <> d) by (intros ->; apply N; reflexivity). lia.
+  - left. lia.
+Qed.
+
+Lemma key_lt_trans : forall k1 k2 k3, key_lt k1 k2 -> key_lt k2 k3 -> key_lt k1 k3.
+Proof.
+  intros [a b] [c d] [e f]; unfold key_lt; cbn [fst snd]. lia.
+Qed.
+
+Lemma key_lt_irrefl : forall k, ~ key_lt k k.
+Proof. intros [a b]; unfold key_lt; cbn [fst snd]. lia. Qed.
+
+Lemma insert_perm : forall e l, Permutation (e :: l) (insert_entry e l).
+Proof.
+  intros e l; induction l as [|h t IH]; cbn [insert_entry].
+  - apply Permutation_refl.
+  - destruct (key_ltb (fst h) (fst e)).
+    + eapply Permutation_trans; [apply perm_swap | apply perm_skip; exact IH].
+    + apply Permutation_refl.
+Qed.
+
+Lemma sort_perm : forall m, Permutation m (go_string_entries m).
+Proof.
+  induction m as [|e m IH]; cbn [go_string_entries fold_right].
+  - constructor.
+  - eapply Permutation_trans; [apply perm_skip; exact IH | apply insert_perm].
+Qed.
+
+Lemma insert_sorted : forall e l,
+  StronglySorted entry_lt l -> ~ In (fst e) (map fst l) ->
+  StronglySorted entry_lt (insert_entry e l).
+Proof.
+  intros e l; induction l as [|h t IH]; intros S N; cbn [insert_entry].
+  - constructor; constructor.
+  - inversion S as [|? ? St Fh]; subst.
+    cbn [map In] in N.
+    destruct (key_ltb (fst h) (fst e)) eqn:E.
+    + constructor.
+      * apply IH; tauto.
+      * apply (Permutation_Forall (insert_perm e t)).
+        constructor; [apply key_ltb_lt; exact E | exact Fh].
+    + assert (L : entry_lt e h).
+      { apply key_lt_total; [exact E|]. intros Heq. apply N. left. exact Heq. }
+      constructor; [exact S|].
+      constructor; [exact L|].
+      eapply Forall_impl; [|exact Fh]. intros a Ha. eapply key_lt_trans; eassumption.
+Qed.
+
+Lemma go_string_sorted_complete : forall m, keys_unique m ->
+  StronglySorted (fun e1 e2 => key_lt (fst e1) (fst e2)) (go_string_entries m)
+  /\ Permutation m (go_string_entries m).
+Proof.
+  intros m U. split; [|apply sort_perm].
+  change (StronglySorted entry_lt (go_string_entries m)).
+  unfold keys_unique in U.
+  induction m as [|e m IH]; cbn [go_string_entries fold_right].
+  - constructor.
+  - cbn [map] in U. inversion U; subst. apply insert_sorted.
+    + apply IH; assumption.
+    + intros I. apply H1.
+      eapply Permutation_in; [|exact I].
+      apply Permutation_map. apply Permutation_sym. apply sort_perm.
+Qed.
